@@ -145,7 +145,11 @@ impl<'tcx> Dumper<'tcx> {
 
    fn snippet(&self, sp: Span) -> Option<String> {
       if sp.from_expansion() {
-         return None;
+         // compiler desugarings (`a..b`, `for`, `?`) keep pointing at user text; macro expansions do not
+         match sp.ctxt().outer_expn_data().kind {
+            rustc_span::ExpnKind::Desugaring(_) => {},
+            _ => return None,
+         }
       }
       let sm = self.tcx.sess.source_map();
       sm.span_to_snippet(sp).ok().filter(|x| x.len() <= 200)
